@@ -6,7 +6,7 @@
    wrap-around, the pawn attack sets.  Until the refinement is closed, "equals the rules" is decided
    by the correspondence run against the executable specification spec/Rules.v (a test, not a proof). *)
 From Coq Require Import NArith ZArith List Bool Permutation.
-From Rawr Require Import Consts Bits Magic Position MoveGen MakeStages Rules Abs MagicFacts ShiftFacts AbsFacts MakeFacts GenSane GenNoDup.
+From Rawr Require Import Consts Bits Magic Position MoveGen MakeStages Rules Abs MagicFacts ShiftFacts AbsFacts MakeFacts GenSane GenNoDup NoKingCapture.
 Import ListNotations.
 Local Open Scope N_scope.
 
@@ -74,6 +74,16 @@ Proof. exact good_pos_pieces_never_promote. Qed.
 Example C01_good_startpos : good_pos_b startpos = true /\ (forall e, ep startpos = Some e -> rank_of e = 5).
 Proof. split; [vm_compute; reflexivity|intros e H; discriminate H]. Qed.
 
+(* a piece of the first half: a generated move that lands on an enemy man attacks that square, so in a position whose
+   side not to move is not in check no generated move captures a king *)
+Theorem C01_generated_capture_attacks_its_target : forall p g, Good p -> CastleGood p -> In g (move_generator p) ->
+  tb p (m_to (gen_mv g)) = true -> is_sq_attacked p (m_to (gen_mv g)) true = true.
+Proof. intros p g G CG. exact (capture_attacks p G CG g). Qed.
+Theorem C01_no_generated_move_captures_a_king : forall p g, Good p -> CastleGood p ->
+  popcount (N.land (kings p) (c_them p)) = 1 -> in_check_them p = false -> In g (move_generator p) ->
+  m_to (gen_mv g) <> lsb (N.land (kings p) (c_them p)).
+Proof. exact no_king_capture. Qed.
+
 (* non-vacuity of the statement's premise and an instance of its conclusion, by computation: the start position,
    "kiwipete", a Chess960 position with a pinned castling rook, an en-passant capture that would expose the king *)
 Definition instance_ok (p : Position) : bool :=
@@ -98,3 +108,5 @@ Print Assumptions C01_no_callback_twice.
 Print Assumptions C01_no_move_twice.
 Print Assumptions C01_promotions_all_four.
 Print Assumptions C01_pieces_never_promote.
+Print Assumptions C01_generated_capture_attacks_its_target.
+Print Assumptions C01_no_generated_move_captures_a_king.
